@@ -581,6 +581,10 @@ pub fn run(ctx: &Ctx) {
         &M { family: "ipv4", narrow: true },
         ExploreOpts { max_depth: ctx.tier.pick(11, 16), wall_cap: Duration::from_secs(ctx.tier.pick(400, 1500)), state_cap: ctx.tier.pick(600_000, 16_000_000), dedup: true },
     );
+    // "never beyond the life of the ... peer it came from", at node level: decisions learned from a peer's traffic (fresh far
+    // beyond the peer timeout) go at the tick at which the silent peer is removed (C15's scenario, run here under C11's name)
+    let sl: Vec<super::c15::SilenceCase> = [0i64, 7, 33].iter().map(|t| super::c15::SilenceCase { from_second: *t, timeout: 120, victim_timeout: None }).collect();
+    sweep_list(ctx, "peer_timeout_learned_decisions", &sl, SweepOpts { chunk: 1, ..Default::default() }, super::c15::run_silence_learned);
     let nodes: Vec<NodeCase> = ["router", "switch", "hub"].iter().map(|m| NodeCase { mode: m.to_string() }).collect();
     sweep_list(ctx, "node_unknown_destination", &nodes, SweepOpts { chunk: 1, ..Default::default() }, run_node);
     ctx.assume("time constants are scaled down (switch timeout 3 s, peer timeout 7 s): the table only compares expiries with the clock");
@@ -592,6 +596,7 @@ pub fn replay(family: &str, case: &Value) -> Option<CaseResult> {
     match family {
         "prefix_match" => replay_with::<MatchBlock>(case, run_match_block),
         "node_unknown_destination" => replay_with::<NodeCase>(case, run_node),
+        "peer_timeout_learned_decisions" => replay_with::<super::c15::SilenceCase>(case, super::c15::run_silence_learned),
         "mode_matrix" => replay_with::<super::modes::ModeCase>(case, super::modes::run_case),
         f if f.starts_with("table_") => {
             let fam = f.trim_end_matches("-audit");
